@@ -922,7 +922,7 @@ Proof.
       split; [|split; [assumption|split; [assumption|]]].
       - split; [lia|split; [lia|]]. intros j vsj Hj. destruct (Z.eq_dec j (e_slot e)) as [->|Hne].
         + rewrite F5 in Hj. injection Hj as <-. cbn. split; [lia|discriminate].
-        + rewrite F6 in Hj by assumption. auto.
+        + rewrite F6 in Hj by assumption. apply (C3 _ _ Hj).
       - eapply sk_fire; eauto. }
     assert (Requeue : forall c' it', target < ex -> now s < c' <= now s + WIN -> c' mod 65536 <= 61036 -> c' <= ex ->
       ((item vs = VMax ex c /\ c' = Z.min ex (now s + WIN) /\ it' = VMax ex c') \/
@@ -950,4 +950,140 @@ Proof.
       rewrite rounded_75point_spec by (unfold WIN in *; lia). cbn [obind].
       eexists _, []. split; [reflexivity|].
       apply (Requeue (r75 (now s) (Z.min ex (now s + WIN))) (VMin ex (r75 (now s) (Z.min ex (now s + WIN))))); auto; lia.
+Qed.
+
+(** the loop over the head, with an additional user invariant [X] *)
+Lemma process_head_ok (X : tstate -> list entry -> list Z -> Prop) now0 n target :
+  n < HMAX ->
+  (forall s e hd fired s1 d, PH now0 s (e :: hd) -> CH n s -> now s <= target -> X s (e :: hd) fired ->
+     ph_step e target s = Some (s1, d) -> step_kind e target s s1 d -> PH now0 s1 hd -> now s1 = now s ->
+     X s1 hd (fired ++ d)) ->
+  forall hd s fired, PH now0 s hd -> CH n s -> now s <= target -> X s hd fired ->
+    exists s' fired', process_head hd target s fired = Some (s', fired') /\
+      PH now0 s' [] /\ CH n s' /\ now s' = now s /\ cnow s' = cnow s /\ X s' [] fired'.
+Proof.
+  intros Hn HX hd s fired P C Ht Hx.
+  destruct (process_head_inv
+    (fun s0 hd0 f0 => PH now0 s0 hd0 /\ CH n s0 /\ now s0 = now s /\ cnow s0 = cnow s /\ X s0 hd0 f0) target) with (hd := hd) (s := s) (fired := fired)
+    as (s' & f' & E & Q).
+  - intros s0 e hd0 f0 (P0 & C0 & N0 & K0 & X0).
+    destruct (ph_step_ok now0 n target s0 e hd0 P0 C0 Hn ltac:(lia)) as (s1 & d & E & P1 & C1 & N1 & K1 & SK).
+    exists s1, d. split; [assumption|]. split; [assumption|split; [assumption|split; [congruence|split; [congruence|]]]].
+    eapply HX; eauto. lia.
+  - auto.
+  - exists s', f'. tauto.
+Qed.
+
+(** one step of the outer loop *)
+Definition adv_step (target : Z) (s : tstate) (fired : list Z) : option (tstate * list Z) :=
+  stepped <- time_add_secs (now s) ADVANCE_STEP_SECS ;;
+  let n := Z.min stepped target in
+  w <- time_wt n ;;
+  kw <- cadd32 w ADVANCE_SPLIT_INC ;;
+  let '(head, rest) := q_split kw 0 (queue s) in
+  process_head head target (set_now (set_queue s rest) n) fired.
+
+Lemma advance_loop_S f target s fired :
+  advance_loop (S f) target s fired =
+  if now s <? target then
+    match adv_step target s fired with
+    | Some (s1, fired1) => advance_loop f target s1 fired1
+    | None => None
+    end
+  else Some (s, fired).
+Proof.
+  cbn [advance_loop]. destruct (now s <? target); [|reflexivity]. unfold adv_step.
+  destruct (time_add_secs (now s) ADVANCE_STEP_SECS); [|reflexivity]. cbn [obind time_wt].
+  destruct (cadd32 _ ADVANCE_SPLIT_INC); [|reflexivity]. cbn [obind].
+  destruct (q_split _ 0 (queue s)) as [h t].
+  destruct (process_head h target _ fired) as [[s1 f1]|]; reflexivity.
+Qed.
+
+Lemma advance_loop_0 target s fired :
+  advance_loop 0 target s fired = if now s <? target then None else Some (s, fired).
+Proof. reflexivity. Qed.
+
+Lemma advance_loop_rule (Q : tstate -> list Z -> Prop) target :
+  (forall s fired, Q s fired -> now s < target ->
+     exists s1 f1, adv_step target s fired = Some (s1, f1) /\ Q s1 f1 /\ now s1 = Z.min (now s + WIN) target) ->
+  forall fuel s fired, Q s fired -> (now s < target -> target - now s <= (Z.of_nat fuel - 1) * WIN) ->
+    exists s' f', advance_loop fuel target s fired = Some (s', f') /\ Q s' f' /\ target <= now s'.
+Proof.
+  intros Hstep. induction fuel as [|f IH]; intros s fired HQ Hf.
+  - rewrite advance_loop_0. destruct (Z.ltb_spec (now s) target) as [L|L].
+    + specialize (Hf L). unfold WIN in Hf. lia.
+    + exists s, fired. auto.
+  - rewrite advance_loop_S. destruct (Z.ltb_spec (now s) target) as [L|L].
+    + destruct (Hstep s fired HQ L) as (s1 & f1 & E & HQ1 & N1). rewrite E. apply IH; [assumption|].
+      intros L1. specialize (Hf L). unfold WIN in *. lia.
+    + exists s, fired. auto.
+Qed.
+
+Lemma PH_rebase now0 s : PH now0 s [] -> PH (now s) s [].
+Proof.
+  intros P. pose proof (PH_now_nonneg _ _ _ P). destruct P. constructor; try assumption; try constructor; unfold WIN; lia.
+Qed.
+
+Lemma adv_step_ok (X : tstate -> list entry -> list Z -> Prop) n target s fired :
+  PH (now s) s [] -> CH n s -> n < HMAX -> now s < target -> target < 2 ^ 49 -> target mod 65536 <= 61035 ->
+  let n' := Z.min (now s + WIN) target in
+  (forall h t, queue s = h ++ t -> Forall (fun e => Tof (now s) (e_wt e) <= n') h ->
+     Forall (fun e => n' < Tof (now s) (e_wt e)) t -> PH (now s) (set_now (set_queue s t) n') h ->
+     X (set_now (set_queue s t) n') h fired) ->
+  (forall s0 e hd f0 s1 d, PH (now s) s0 (e :: hd) -> CH n s0 -> now s0 <= target -> X s0 (e :: hd) f0 ->
+     ph_step e target s0 = Some (s1, d) -> step_kind e target s0 s1 d -> PH (now s) s1 hd -> now s1 = now s0 ->
+     X s1 hd (f0 ++ d)) ->
+  exists s1 f1, adv_step target s fired = Some (s1, f1) /\ PH (now s1) s1 [] /\ CH n s1 /\
+    now s1 = n' /\ cnow s1 = cnow s /\ X s1 [] f1.
+Proof.
+  intros P C Hn Hlt Hb Hl n' HX0 HX. destruct (now_facts _ _ _ P) as [Hnow Hlow].
+  assert (Hn' : now s < n' <= now s + WIN) by (unfold n', WIN; lia).
+  assert (Hl' : n' mod 65536 <= 61035) by (unfold n', WIN; destruct (Z.min_spec (now s + 2147418112) target) as [[? ->]|[? ->]]; lia).
+  assert (Hb' : n' < 2 ^ 49) by (unfold n'; lia).
+  destruct (ph_split s n' P Hn' Hb' Hl') as (h & t & Es & Eq & P1 & Hh & Ht).
+  unfold adv_step. unfold ADVANCE_STEP_SECS. rewrite (lim_now _ Hnow). cbn [obind time_wt]. fold n'.
+  unfold ADVANCE_SPLIT_INC. rewrite cadd32_ok by lia. cbn [obind].
+  assert (Ek : n' mod 4294967296 + 1 = (n' + 1) mod M32) by (unfold M32; lia).
+  rewrite Ek, Es.
+  destruct (process_head_ok X (now s) n target Hn HX h (set_now (set_queue s t) n') fired P1)
+    as (s1 & f1 & E & P2 & C2 & N2 & K2 & X2).
+  - destruct C as (C1 & C2 & C3). split; [exact C1|split; [exact C2|exact C3]].
+  - sproj. unfold n'. lia.
+  - apply HX0; assumption.
+  - exists s1, f1. split; [assumption|]. sproj. split; [apply PH_rebase with (now s); assumption|].
+    split; [assumption|split; [assumption|split; assumption]].
+Qed.
+
+(** ** the whole of [advance], for the model alone *)
+Lemma advance_fuel_enough s target : 0 <= now s -> now s < target ->
+  target - now s <= (Z.of_nat (advance_fuel s target) - 1) * WIN.
+Proof.
+  intros H0 H. unfold advance_fuel, ADVANCE_STEP_SECS. change (Z.max 1 (32767 * 65536)) with WIN.
+  rewrite Z2Nat.id by (unfold WIN; lia). unfold WIN. lia.
+Qed.
+
+Lemma advance_ok s ns n : TInv s -> counters_ok s n -> n < HMAX -> cnow s < ns < TMAX ->
+  exists s' fired, advance (set_cnow s ns) ns = Some (s', fired) /\ TInv s' /\ counters_ok s' (n + 1) /\
+    cnow s' = ns /\ now s' = floor_ns ns.
+Proof.
+  intros I C Hn Hns. pose proof (TInv_PH s I) as P. destruct (now_facts _ _ _ P) as [Hnow Hlow].
+  destruct (floor_range ns ltac:(lia)) as [Hf Hfl].
+  unfold advance. rewrite (t_floor_spec ns ltac:(lia)). cbn [obind].
+  set (target := floor_ns ns) in *.
+  assert (Hle : now s <= target).
+  { rewrite (i_now s I). unfold target. apply floor_mono. lia. }
+  destruct (advance_loop_rule (fun s0 _ => PH (now s0) s0 [] /\ CH n s0 /\ cnow s0 = ns /\ now s0 <= target) target)
+    with (fuel := advance_fuel (set_cnow s ns) target) (s := set_cnow s ns) (fired := @nil Z) as (s' & f' & E & (P' & C' & K' & N') & G').
+  - intros s0 f0 (P0 & C0 & K0 & N0) L0.
+    destruct (adv_step_ok (fun _ _ _ => True) n target s0 f0 P0 C0 Hn L0 ltac:(lia) Hfl) as (s1 & f1 & E1 & P1 & C1 & N1 & K1 & _); auto.
+    exists s1, f1. split; [assumption|]. split; [|assumption]. split; [assumption|split; [assumption|split; [congruence|lia]]].
+  - split; [|split; [|split]].
+    + destruct P. constructor; sproj; assumption.
+    + apply counters_CH in C. destruct C as (C1 & C2 & C3). split; [exact C1|split; [exact C2|exact C3]].
+    + reflexivity.
+    + exact Hle.
+  - intros L. apply advance_fuel_enough; sproj; lia.
+  - exists s', f'. split; [assumption|]. assert (now s' = target) by lia.
+    split; [|split; [apply CH_counters; assumption|split; assumption]].
+    eapply PH_TInv; [eassumption|rewrite K'; lia|rewrite K'; assumption].
 Qed.
